@@ -20,6 +20,9 @@ func VerifAdvEnfConsts() [][2]any {
 		{"tpActiveConnectionIDLimit", uint64(activeConnectionIDLimitParameterID)},
 		{"tpInitialSourceConnectionID", uint64(initialSourceConnectionIDParameterID)},
 		{"tpMaxDatagramFrameSize", uint64(maxDatagramFrameSizeParameterID)},
+		{"tpAckDelayExponent", uint64(ackDelayExponentParameterID)},
+		{"tpMaxAckDelay", uint64(maxAckDelayParameterID)},
+		{"tpDisableActiveMigration", uint64(disableActiveMigrationParameterID)},
 		{"wireMaxDatagramSize", int64(MaxDatagramSize)},
 	}
 }
